@@ -28,6 +28,20 @@ Definition lit_ok (x : xgate (T:=T)) : Prop :=
   | _ => True
   end.
 Definition meas_ok (x : xgate (T:=T)) : Prop := match x with XMeas _ qs => qs <> [] | _ => True end.
+(* every control qubit listed once (with repeated controls the exporter emits each once; that case is decided per text) *)
+Fixpoint nodupN (l : list N) : bool := match l with [] => true | x :: r => negb (existsb (N.eqb x) r) && nodupN r end.
+Definition ctrl_nodup (x : xgate (T:=T)) : Prop := match x with XOp _ _ _ cs => nodupN cs = true | _ => True end.
+
+Lemma dedup_go_id l : forall seen, nodupN l = true -> (forall x, In x l -> existsb (N.eqb x) seen = false) -> dedup_go seen l = l.
+Proof.
+  induction l as [|x r IH]; intros seen Hn Hs; cbn [dedup_go]; [reflexivity|].
+  cbn [nodupN] in Hn. apply andb_true_iff in Hn. destruct Hn as [Hx Hr]. apply negb_true_iff in Hx.
+  rewrite (Hs x (or_introl eq_refl)). f_equal. apply IH; [exact Hr|].
+  intros y Hy. cbn [existsb]. rewrite (Hs y (or_intror Hy)), orb_false_r.
+  apply N.eqb_neq. intros ->. assert (existsb (N.eqb x) r = true) by (apply existsb_exists; exists x; split; [exact Hy|apply N.eqb_refl]). congruence.
+Qed.
+Lemma dedupN_id l : nodupN l = true -> dedupN l = l.
+Proof. intros H. apply dedup_go_id; auto. Qed.
 Definition instr_ok (i : instr) : Prop := match i with IGate _ _ _ _ => True | IMeas _ qs => qs <> [] | IMeasCustom _ _ _ => False end.
 
 Lemma lower_instr_ok x i : lower x = Some i -> meas_ok x -> instr_ok i.
@@ -35,6 +49,13 @@ Proof.
   destruct x as [g l ts cs|b qs]; cbn [lower meas_ok].
   - destruct g, l; intros [= <-] _; exact I.
   - destruct b; intros [= <-] H; try exact H.
+Qed.
+
+Lemma lower_all_ok : forall (xs : list (xgate (T:=T))) is, lower_all xs = Some is -> Forall meas_ok xs -> Forall instr_ok is.
+Proof.
+  induction xs as [|y ys IHy]; intros is L Hm; [injection L as <-; constructor|].
+  cbn [lower_all] in L. destruct (lower y) as [j|] eqn:Ly; [|discriminate]. destruct (lower_all ys) as [js|] eqn:Lys; [|discriminate].
+  injection L as <-. inversion Hm; subst. constructor; [eapply lower_instr_ok; eauto|]. apply IHy; auto.
 Qed.
 
 (* ---- one gate statement ---- *)
@@ -49,11 +70,11 @@ Lemma validate_firstn1 (cs : list N) : len cs = 1 -> firstn 1 cs = cs.
 Proof. unfold len. intros H. apply (f_equal N.to_nat) in H. rewrite Nat2N.id in H. destruct cs as [|c [|d cs]]; simpl in H; try reflexivity; discriminate. Qed.
 
 Lemma gate_statement_sound g l ts cs name ps ts' cs' (st s : state) :
-  lower (XOp g l ts cs) = Some (IGate name ps ts' cs') -> lit_ok (XOp g l ts cs) ->
+  lower (XOp g l ts cs) = Some (IGate name ps ts' cs') -> lit_ok (XOp g l ts cs) -> nodupN cs = true ->
   apply_op O par g st ts cs = Ok s ->
   exists g', gate_op O lit name (map lit_expr ps) = Some g' /\ apply_op O par g' st ts' cs' = Ok s.
 Proof.
-  intros Hl Hlit Hx. cbn [lower] in Hl.
+  intros Hl Hlit Hnd Hx. cbn [lower] in Hl. rewrite ?(dedupN_id cs Hnd) in Hl.
   destruct g, l; try discriminate Hl; injection Hl as <- <- <- <-; cbn [lit_ok] in Hlit.
   all: try (eexists; split; [reflexivity|exact Hx]).
   - (* p *) destruct Hlit as [<- <-]. eexists; split; [reflexivity|exact Hx].
@@ -157,18 +178,15 @@ Qed.
 
 (* ---- the whole body ---- *)
 Theorem export_sound : forall (xs : list (xgate (T:=T))) is k (st : state) draws w',
-  lower_all xs = Some is -> Forall lit_ok xs -> Forall meas_ok xs ->
+  lower_all xs = Some is -> Forall lit_ok xs -> Forall meas_ok xs -> Forall ctrl_nodup xs ->
   exec (map to_gate xs) (st, draws) = Ok w' ->
   sem (group_items (body_stmts k is) None) st draws = Ok (fst w').
 Proof.
-  induction xs as [|x xs IH]; intros is k st draws w' Hl Hlit Hm Hx.
+  induction xs as [|x xs IH]; intros is k st draws w' Hl Hlit Hm Hcn Hx.
   - injection Hl as <-. cbn in Hx. injection Hx as <-. reflexivity.
   - cbn [lower_all] in Hl. destruct (lower x) as [i|] eqn:Lx; [|discriminate]. destruct (lower_all xs) as [is'|] eqn:Lxs; [|discriminate].
-    injection Hl as <-. inversion Hlit as [|? ? Hl1 Hl2]; subst. inversion Hm as [|? ? Hm1 Hm2]; subst.
-    assert (Hok : Forall instr_ok is').
-    { clear IH Hx. revert is' Lxs. induction xs as [|y ys IHy]; intros is' L; [injection L as <-; constructor|].
-      cbn [lower_all] in L. destruct (lower y) as [j|] eqn:Ly; [|discriminate]. destruct (lower_all ys) as [js|] eqn:Lys; [|discriminate].
-      injection L as <-. inversion Hl2; inversion Hm2; subst. constructor; [eapply lower_instr_ok; eauto|]. apply IHy; auto. }
+    injection Hl as <-. inversion Hlit as [|? ? Hl1 Hl2]; subst. inversion Hm as [|? ? Hm1 Hm2]; subst. inversion Hcn as [|? ? Hc1 Hc2]; subst.
+    assert (Hok : Forall instr_ok is') by (eapply lower_all_ok; eauto).
     cbn [map Circuit.run_gates] in Hx.
     destruct x as [g l ts cs|b qs]; cbn [to_gate gate_apply] in Hx.
     + (* operator gate *)
@@ -176,10 +194,10 @@ Proof.
       pose proof Lx as Lx'. cbn [lower] in Lx'.
       assert (exists name ps ts' cs', i = IGate name ps ts' cs') as [name [ps [ts' [cs' ->]]]].
       { destruct g, l; try discriminate Lx'; injection Lx' as <-; repeat eexists. }
-      destruct (gate_statement_sound g l ts cs name ps ts' cs' st s1 Lx Hl1 Ea) as [g' [Hg Ha]].
+      destruct (gate_statement_sound g l ts cs name ps ts' cs' st s1 Lx Hl1 Hc1 Ea) as [g' [Hg Ha]].
       cbn [body_stmts group_items app]. cbn [run_items]. rewrite Hg.
       destruct (skip_first cs' ts') as [S1 S2]. rewrite S1, S2, Ha. cbn [bind].
-      apply (IH is' k s1 draws w' eq_refl Hl2 Hm2 Hx).
+      apply (IH is' k s1 draws w' eq_refl Hl2 Hm2 Hc2 Hx).
     + (* measurement gate *)
       destruct draws as [|d ds]; [discriminate|].
       destruct (measure O of_N eps tol par b st qs d) as [res| |] eqn:Em; cbn [omap bind] in Hx; try discriminate.
@@ -188,6 +206,6 @@ Proof.
       { cbn [lower] in Lx. destruct b; try discriminate Lx; injection Lx as <-; eexists; reflexivity. }
       cbn [body_stmts]. rewrite (group_meas k kind qs _ Hm1 (body_head_ok k is' Hok)). cbn [run_items].
       fold (routine_of kind). rewrite (meas_statement_sound b kind qs st d res _ Lx Hm1 Em).
-      apply (IH is' (k + 1) (snd res) ds w' eq_refl Hl2 Hm2 Hx).
+      apply (IH is' (k + 1) (snd res) ds w' eq_refl Hl2 Hm2 Hc2 Hx).
 Qed.
 End C13.
